@@ -226,3 +226,15 @@ package core
 //@
 //@ func (*pipeIDAllocator).Free
 //@   before call:Unlock#1 assert !has(p.used, id)
+
+// ---- round 5 ----
+//@ func (*socket).SetOption
+//@   loop 1 complete
+//@   loop 2 complete
+//@
+//@ func (*socket).addPipe
+//@   before call:fnvalue#1 assert called("Add")
+//@   before call:AddPipe#1 assert called("Add")
+//@
+//@ func (*dialer).pipeConnected
+//@   ensures !called("Stop") && unchanged("call:Lock#1", d.redialer)
